@@ -54,6 +54,10 @@ def _find_log_index(f):
     global _last_asked, _log_cache
     (begin, end) = (0, 128)
 
+    # Do some range checking
+    if f > _log_cache[127] or f <= 0:
+        return 128
+
     # Most calls are sequential, this keeps track of the last value asked for so
     # that we need to search much, much less.
     if _last_asked is not None:
@@ -66,10 +70,6 @@ def _find_log_index(f):
                 _last_asked = (lastn + 1, f)
                 return lastn + 1
             begin = lastn
-
-    # Do some range checking
-    if f > _log_cache[127] or f <= 0:
-        return 128
 
     # Binary search related algorithm to find the index
     while begin != end:
